@@ -11,6 +11,8 @@ HARNESSES = [
     dict(name="pppoe", pkg="./internal/pppoe/", test="TestVerifC12", timeout=900,
          files=[("internal/pppoe/zz_verif_c12_common_test.go", _F + "c12_common_pppoe_test.go"),
                 ("internal/pppoe/zz_verif_c12_test.go", _F + "c12_pppoe_test.go")]),
+    dict(name="ow", pkg="./pkg/opdb/", test="TestVerifC12OW", timeout=600,
+         files=[("pkg/opdb/zz_verif_c12_ow_test.go", _F + "c12_ow_test.go")]),
 ]
 VARIANTS = ["repaired", "d_async", "d_reserve", "defective"]
 MODEL_NEEDS_IMPL = True
@@ -36,7 +38,7 @@ ASSUMPTIONS = ["session identities are never reused (the harness skips new:<i> f
 
 
 def route(case):
-    return case.split(" ", 1)[0]
+    return case.split(" ", 1)[0]          # ipoe | pppoe | ow
 
 
 # ------------------------------------------------------------------ generator
@@ -196,8 +198,35 @@ def _structured(proto):
     return hs
 
 
+def _ow_cases(rng, n):
+    """direct OrderedWriter histories over <=2 keys: issues (async / sync Put, Delete) and completions (ok / err)"""
+    fixed = [
+        "pa:a:1 del:a err:a ok:a", "pa:a:1 del:a ok:a ok:a", "pa:a:1 pa:a:2 del:a err:a ok:a pa:a:3 ok:a",
+        "pa:a:1 pa:a:2 err:a ok:a", "pa:a:1 pa:a:2 ok:a err:a", "pa:a:1 ps:a:2 err:a err:a", "ps:a:1 del:a pa:a:2 ok:a ok:a ok:a",
+        "pa:a:1 pa:b:7 del:a ok:b err:a ok:a", "del:a err:a pa:a:1 ok:a", "pa:a:1 del:a pa:a:2 err:a ok:a ok:a",
+        "pa:a:1 pa:a:2 pa:a:3 del:a pa:a:4 ok:a ok:a ok:a", "pa:a:1 ok:a pa:a:2 err:a pa:a:3 ok:a del:a err:a",
+    ]
+    out = ["ow " + f for f in fixed]
+    for _ in range(n):
+        ops, outstanding, v = [], {"a": 0, "b": 0}, 1
+        for _ in range(rng.choice([4, 7, 10, 14])):
+            k = rng.choice("aab")
+            r = rng.random()
+            if r < 0.30:
+                ops.append("pa:%s:%d" % (k, v)); v += 1; outstanding[k] += 1
+            elif r < 0.38:
+                ops.append("ps:%s:%d" % (k, v)); v += 1; outstanding[k] += 1
+            elif r < 0.52:
+                ops.append("del:%s" % k); outstanding[k] += 1
+            elif outstanding[k] > 0 or r > 0.97:
+                ops.append(("ok:%s" if rng.random() < 0.7 else "err:%s") % k)
+                outstanding[k] = max(0, outstanding[k] - 1)      # approximate: obsolete Puts finish by themselves
+        out.append("ow " + " ".join(ops))
+    return out
+
+
 def gen_cases(rng, tier, budget):
-    cases = []
+    cases = _ow_cases(rng, 150 if tier == "quick" else 1500)
     for proto in ("ipoe", "pppoe"):
         for h in _structured(proto):
             for cfg in ("4 4 1", "2 2 1"):
@@ -281,6 +310,14 @@ def _monitor(case, impl):
 
 
 def classify(case, impl, model):
+    if case.startswith("ow "):
+        fi, fm = _field(impl, "log"), _field(model, "log")
+        if fi != fm:
+            return "P", "effects reached the store in another order / number than issued: impl log=%s model log=%s" % (fi, fm)
+        if _field(impl, "infl") != _field(model, "infl"):
+            return "P", "a write is at the store outside its issue slot: impl infl=%s model infl=%s" % (
+                _field(impl, "infl"), _field(model, "infl"))
+        return "G", "OrderedWriter result differs: impl=%r model=%r" % (impl[:300], model[:300])
     v = _monitor(case, impl)
     if v:
         return "P", v
@@ -306,6 +343,8 @@ def classify(case, impl, model):
 
 def signature(case, impl, models):
     proto = route(case)
+    if proto == "ow":
+        return None
     if impl == models.get("d_async"):
         v = _monitor(case, impl) or ""
         kind = "resurrect" if "released session" in v else "stale-image"
@@ -318,11 +357,17 @@ def signature(case, impl, models):
 
 
 def nontrivial(case, impl):
+    if case.startswith("ow "):
+        return "log=-" not in impl
     return bool(re.search(r"R\d+:", impl))
 
 
 def shrink(case):
     t = case.split()
+    if t[0] == "ow":
+        for i in range(1, len(t)):
+            yield " ".join(t[:i] + t[i + 1:])
+        return
     head, ops = t[:4], t[4:]
     for i in range(len(ops)):
         yield " ".join(head + ops[:i] + ops[i + 1:])
@@ -345,9 +390,12 @@ def distribution(cases, impl):
          "failed_adds": 0, "exhausted_allocs": 0, "skips": 0, "cases_with_2plus_crashes": 0, "released_then_restored": 0,
          "mean_ops": 0}
     tot = 0
+    d["ow"] = 0
     for c, o in zip(cases, impl):
         t = c.split()
         d[t[0]] += 1
+        if t[0] == "ow":
+            continue
         tot += len(t) - 4
         nc = 0
         for op in t[4:]:
